@@ -16,6 +16,7 @@
 -/
 import PyTough.Model.Refine
 import PyTough.Proofs.Refine
+import PyTough.Proofs.RefineLayers
 namespace Props.C11
 open Model.Geo Model.Refine Gen.RefineTables Proofs.Refine
 
@@ -177,5 +178,20 @@ theorem split_column_conserves_area (ρ : Val) (i0 : Nat) (hi : i0 < 4) :
   have := area_additive_over_chain ρ 4 [] _ (split_column_boundary_identity i0 (List.mem_range.mpr hi))
   simp only [List.map_cons, List.map_nil, sumRat_cons, sumRat_nil] at this
   rw [← this]; grind
+
+/-! ### `refine_layers` -/
+
+/-- each refined layer is replaced by `factor` layers whose thicknesses add up to its own -/
+theorem refine_layers_piece_sum (t : Rat) (factor : Nat) (hf : factor ≠ 0) :
+    sumRat (List.replicate factor (t / factor)) = t := refined_piece_sum t factor hf
+
+/-- the thickness list `refine_layers` hands to `add_layers` (selected layers split into `factor` equal parts,
+    the others kept) has the same total as the old stack, for every selection and every factor ≥ 1: the
+    bottom of the lowest layer, hence every column's rock thickness, does not move -/
+theorem refine_layers_conserves_thickness (ts : List (Rat × Bool)) (factor : Nat) (hf : factor ≠ 0) :
+    sumRat (Geo.refinedThicknesses ts factor) = sumRat (ts.map (·.1)) := refinedThicknesses_sum ts factor hf
+
+example : Geo.refinedThicknesses [(2, true), (5, false), (3, true)] 3 = [2/3, 2/3, 2/3, 5, 1, 1, 1] := by
+  decide +kernel
 
 end Props.C11
